@@ -24,7 +24,8 @@ import numpy as np
 
 from common import Ctx, jrat
 
-ALPHABET = [Fraction(1), Fraction(2), Fraction(3), Fraction(4)]
+# includes the exact value 0 (a loss that reaches zero is a legitimate best value)
+ALPHABET = [Fraction(0), Fraction(1), Fraction(2), Fraction(3)]
 REPS = ["pyfloat", "npfloat32", "npfloat64", "jax"]
 # 3/2 exceeds the alphabet's smallest step, so some decreases do NOT count as improvements
 DELTAS = (Fraction(0), Fraction(1, 2), Fraction(3, 2))
@@ -469,7 +470,7 @@ def run(ctx: Ctx):
     import ginjax.ml as ml
 
     ctx.rule = (
-        "all loss histories over the ordered alphabet {1,2,3,4} up to length L (quick 5, thorough 7) x "
+        "all loss histories over the ordered alphabet {0,1,2,3} up to length L (quick 5, thorough 7) x "
         "patience 0..3 x min_delta {0,1/2,3/2} (3/2 makes unit decreases non-improvements) x {TrainLoss,ValLoss} x scalar representation "
         "{python float, numpy.float32, numpy.float64, 0-d jax array} (all four up to length L-1, two on "
         "length L), driven call by call through the real classes after one loss-less call; EpochStop for "
